@@ -72,16 +72,30 @@ def fieldPrime (f : String) : Option Nat :=
 /-- `c01 <field> <hasher> <desc> <n> <init> <overrides> <claimed perturbation a:i:v|-> <options>`
     → `ok` iff the (possibly corrupted) trace satisfies the AIR with the (possibly perturbed) claimed
     assertion values; the hasher and the proof options do not influence the ideal verdict. -/
+def parseAuxCorruption (s : String) : Option AuxCorruption :=
+  match s.splitOn ":" with
+  | [r, c, dl] => do
+    let c ← c.toNat?; let dl ← dl.toNat?
+    if r == "shift" then pure ⟨none, c, dl⟩ else do let r ← r.toNat?; pure ⟨some r, c, dl⟩
+  | _ => none
+
+def handleIdeal8 (fld desc n init ovs pert : String) (aux : Option AuxCorruption) : String :=
+  match fieldPrime fld, parseDesc desc, n.toNat?, parseNats init "/", parseOverrides ovs with
+  | some p, some d, some n, some init, some ovs =>
+    let claimed0 := d.asserts.map (·.values)
+    let claimed := match (splitDash pert ":").mapM String.toNat? with
+      | some [a, i, v] => claimed0.mapIdx (fun j vs => if j = a then vs.mapIdx (fun k x => if k = i then v else x) else vs)
+      | _ => claimed0
+    if idealVerdictAux p d n init ovs claimed aux then "ok" else "reject"
+  | _, _, _, _, _ => "bad-op"
+
 def handleIdeal : List String → String
-  | [fld, _hasher, desc, n, init, ovs, pert, _opts] =>
-    match fieldPrime fld, parseDesc desc, n.toNat?, parseNats init "/", parseOverrides ovs with
-    | some p, some d, some n, some init, some ovs =>
-      let claimed0 := d.asserts.map (·.values)
-      let claimed := match (splitDash pert ":").mapM String.toNat? with
-        | some [a, i, v] => claimed0.mapIdx (fun j vs => if j = a then vs.mapIdx (fun k x => if k = i then v else x) else vs)
-        | _ => claimed0
-      if idealVerdict p d n init ovs claimed then "ok" else "reject"
-    | _, _, _, _, _ => "bad-op"
+  | [fld, _hasher, desc, n, init, ovs, pert, _opts, aux] =>
+    -- ninth word: corruption of the prover's auxiliary segment
+    match parseAuxCorruption aux with
+    | some c => handleIdeal8 fld desc n init ovs pert (some c)
+    | none => "bad-op"
+  | [fld, _hasher, desc, n, init, ovs, pert, _opts] => handleIdeal8 fld desc n init ovs pert none
   | _ => "bad-op"
 
 end Wf.Drv
